@@ -502,8 +502,14 @@ fn check_drivers(p: &PlCase, obs: &mut Obs) -> CheckResult {
 }
 
 fn main() {
+    // the Polars container iterators also belong to C09 (trusted-length law): `./check C09 thorough`
+    // runs this binary restricted to the accessor sub-property and labelled C09
+    let id: &'static str = match std::env::var("VERIF_PROPERTY_ID").as_deref() {
+        Ok("C09") => "C09",
+        _ => "C07",
+    };
     let mut p = Property::new(
-        "C07",
+        id,
         "Polars cells of C07: a logical Option<f64> series is built as a Float64Chunked with 1..=3 chunks (append) and a validity bitmap; accessors (len, get, uget, titer forward / reversed, every slice(a,b)), the trusted-length law of its iterator, 23 null-aware rolling entry points and 7 two-series ones (Polars x Polars and Vec x Polars), Polars as output container through the iterator drivers, mapping functions fed from titer() and aggregations must be bit-identical to the Vec<Option<f64>> reference. Non-trivial = len >= 3 with at least 2 chunks; distinct = distinct serialised cases",
     )
     .assume("Polars output through uset / *_to is documented as unsupported and not requested (DESIGN 5.7)");
